@@ -275,10 +275,13 @@ def run(ctx):
         v = r.ast.value
         if isinstance(v, ast.Call) and call_name(v) == "_bcast":
             ctx.check("R23.4", f"{ars.key}::result is slot 0 broadcast from its owner",
-                      len(v.args) >= 2 and src(v.args[1]) == "vals[0]" and any(kw.arg == "root" and src(kw.value) == "who[0]" for kw in v.keywords),
+                      len(v.args) >= 2 and isinstance(v.args[1], ast.Subscript) and src(v.args[1].slice) == "0" and any(
+                          kw.arg == "root" and isinstance(kw.value, ast.Subscript) and src(kw.value.slice) == "0"
+                          and 'A' in dir() and len(A) == 1 and isinstance(A[0], ast.Subscript) and src(kw.value.value) == src(A[0].value)
+                          for kw in v.keywords),
                       src(v), ars, r.ast)
         else:
-            ctx.check("R23.4", f"{ars.key}::single-process result is slot 0", src(v) == "vals[0]", src(v), ars, r.ast)
+            ctx.check("R23.4", f"{ars.key}::single-process result is slot 0", isinstance(v, ast.Subscript) and src(v.slice) == "0", src(v), ars, r.ast)
     # slot layout: the list entering the pairing loop is exactly the local summands padded with None at the global positions;
     # nothing is pre-reduced locally (that would change the summation tree for some partitions)
     rdv = cfg.reaching_defs(ars.params(), disabled=dis)
